@@ -57,17 +57,26 @@ def grav_cases(ctx, rebound, ncases):
     cases = []
     for k in range(ncases):
         kind = ["v1", "v1", "v1tp", "v2", "v2tp"][k % 5]
-        n = rng.choice([2, 2, 3, 3, 4, 5, 6, 9])
+        n = rng.choice([1, 2, 2, 3, 3, 4, 5, 6, 9])
         ms, pos = gen_cloud(rng, n)
+        corner = rng.random()
+        if corner < 0.06 and n >= 2:             # two coincident particles (NaN/inf on both sides)
+            for c in range(3):
+                pos[c][1] = pos[c][0]
+        elif corner < 0.12:                      # huge / tiny magnitudes (overflow and underflow of the powers of r)
+            f = rng.choice([1e-120, 1e-60, 1e70, 1e130])
+            pos = [[v * f for v in row] for row in pos]
+        elif corner < 0.16:
+            ms = [(-0.0 if i else ms[0]) for i in range(n)]
         G = rng.choice([1.0, 6.674e-11, 39.47841760435743, rng.uniform(0.5, 2)])
         ign = rng.choice([0, 0, 1, 2])
-        nact = rng.choice([n, n, rng.randint(1, n)]) if kind not in ("v2", "v2tp") else n
+        nact = rng.choice([n, n, rng.randint(0, n)]) if kind not in ("v2", "v2tp") else n
         tp = rng.random() < 0.3 if kind not in ("v2", "v2tp") else False
         sim = rebound.Simulation()
         sim.G = G
         for i in range(n):
             sim.add(m=ms[i], x=pos[0][i], y=pos[1][i], z=pos[2][i])
-        sim.N_active = nact if nact < n else -1
+        sim.N_active = nact if (nact < n or rng.random() < 0.2) else -1      # N_active = N explicitly or -1
         sim.testparticle_type = 1 if tp else 0
         sim.gravity_ignore = ign
         soft = rng.choice([0.0, 0.0, 10 ** rng.uniform(-3, 0)])
@@ -165,6 +174,17 @@ def deriv_cases(ctx, rebound, table, nper):
             a = 10 ** rng.uniform(-0.5, 1)
             e = rng.choice([rng.uniform(0.01, 0.25), rng.uniform(0.31, 0.8)])
             inc = rng.uniform(0.01, 2.5)
+            cr = rng.random()
+            if cr < 0.08:
+                e = 0.0
+            elif cr < 0.14:
+                inc = rng.choice([0.0, math.pi])
+            elif cr < 0.18:
+                e, inc = 0.0, 0.0
+            elif cr < 0.22:
+                e = rng.choice([0.999, 0.2999999, 0.3])
+            elif cr < 0.26:
+                a, e = -a, rng.uniform(1.1, 3.0)      # hyperbolic: the constructors are documented for bound orbits; model and code must still agree
             Om, om, f = (rng.uniform(-math.pi, math.pi) for _ in range(3))
             pargs = [prim.m, prim.x, prim.y, prim.z, prim.vx, prim.vy, prim.vz]
             if cname == "reb_particle_from_orbit":
